@@ -431,8 +431,9 @@ func c19NestedCase[A, R any](ctx *core.Ctx, r *rand.Rand, sh c19Shape[A, R], p *
 			}
 			return m
 		}
-		// two situations fail on the library as it is (rows after a null / empty ancestor are shifted or
-		// lost); they get one stable key each, whatever symptom the read path shows
+		// two situations failed before the library fixes a3c4594/0a6a826 (rows after a null / empty
+		// ancestor were shifted or lost); they keep one stable key each, whatever symptom the read path
+		// shows, so that a regression matches the recorded finding
 		class := ""
 		if empties && s.kind == "none" && wp.mode != "deconstruct" {
 			class = "null-or-empty-ancestor-dropped unshredded-variant write/buffer path"
